@@ -4,6 +4,7 @@ package c06
 import (
 	"encoding/json"
 	"fmt"
+	"strconv"
 	"strings"
 	"testing"
 
@@ -259,6 +260,104 @@ func TestCheck(t *testing.T) {
 						}
 					}
 				}
+			}
+		})
+	})
+
+	// Phase B2: numeric components at every power of two and its neighbours, in every position, against each other.
+	r.Phase("B2: cores with one component at 2^k-1, 2^k, 2^k+1 (k = 0..63) in each position, all ordered pairs per position, through every entry point", func() {
+		var vals []uint64
+		for k := uint(0); k < 64; k++ {
+			vals = append(vals, 1<<k-1, 1<<k, 1<<k+1)
+		}
+		vals = append(vals, max64, max64-1)
+		nv := int64(len(vals))
+		r.Parallel(nv*nv, nv, func(w *vkit.W, lo, hi int64) {
+			for k := lo; k < hi; k++ {
+				x, y := vals[k/nv], vals[k%nv]
+				for pos := 0; pos < 3; pos++ {
+					a, b := [3]uint64{1, 1, 1}, [3]uint64{1, 1, 1}
+					a[pos], b[pos] = x, y
+					if pos > 0 { // the more significant component of b is one lower, so b must lose whatever its lower components are
+						c := Case{A: V{Major: a[0], Minor: a[1], Patch: a[2], Pre: "rc.1"}, B: V{Major: b[0], Minor: b[1], Patch: b[2]}, Helpers: k%3 == 0}
+						c.B.Major, c.B.Minor = 1, 0
+						if pos == 1 {
+							c.B.Major, c.B.Minor = 0, y
+						}
+						judge(c, w)
+						w.Eval(false)
+					}
+					c := Case{A: V{Major: a[0], Minor: a[1], Patch: a[2], Pre: "rc.1"}, B: V{Major: b[0], Minor: b[1], Patch: b[2], Pre: "rc.1", Build: "b"}, Helpers: k%3 == 0}
+					judge(c, w)
+					w.Eval(false)
+				}
+			}
+		})
+	})
+
+	// Phase B3: MaxInputLength disabled / raised: long versions that differ only far behind byte 1024, through the string helpers.
+	r.Phase("B3: long versions (1000-4200 bytes) differing only in their last identifier, limit disabled and raised, through the string helpers", func() {
+		old := sem.MaxInputLength
+		defer func() { sem.MaxInputLength = old }()
+		for _, lim := range []int{0, 5000} {
+			sem.MaxInputLength = lim
+			r.Serial(func(w *vkit.W) {
+				for _, n := range []int{900, 1015, 1016, 1017, 1018, 1019, 1020, 1030, 2040, 2048, 2049, 4090, 4096, 4100} {
+					stem := strings.Repeat("a", n)
+					for _, tails := range [][2]string{{"1", "2"}, {"9", "10"}, {"a", "b"}, {"x", ""}, {"", ""}} {
+						pa, pb := stem+"."+tails[0], stem+"."+tails[1]
+						if tails[0] == "" {
+							pa = stem
+						}
+						if tails[1] == "" {
+							pb = stem
+						}
+						c := Case{A: V{Major: 1, Pre: pa}, B: V{Major: 1, Pre: pb, Build: "b"}, Helpers: true}
+						judge(c, w)
+						w.Eval(nontrivial(c))
+						c2 := Case{A: c.B, B: c.A, Helpers: true}
+						judge(c2, w)
+						w.Eval(nontrivial(c2))
+					}
+				}
+			})
+		}
+	})
+
+	// Phase B4: very many distinct versions through the string helpers in one process, in ascending order.
+	nMany := int64(r.Pick(6000000, 60000000))
+	r.Phase(fmt.Sprintf("B4: %d distinct ascending versions compared with their successor through Compare / CompareVersion / LatestTag", nMany), func() {
+		text := func(i int64, buf []byte) []byte {
+			buf = strconv.AppendUint(buf[:0], uint64(i/(307*211)), 10)
+			buf = append(buf, '.')
+			buf = strconv.AppendUint(buf, uint64(i/211%307), 10)
+			buf = append(buf, '.')
+			buf = strconv.AppendUint(buf, uint64(i%211), 10)
+			return buf
+		}
+		r.Parallel(nMany, 8192, func(w *vkit.W, lo, hi int64) {
+			var ba, bb []byte
+			for i := lo; i < hi; i++ {
+				ba, bb = text(i, ba), text(i+1, bb)
+				sa, sb := string(ba), string(bb)
+				// latest-of-two must be the successor itself, whichever helper and argument order is used: if either text were
+				// taken for another version, the returned value would not format back to the successor's text
+				var l sem.Ver
+				var err error
+				switch i % 3 {
+				case 0:
+					l, err = sem.Latest(sa, sb)
+				case 1:
+					l, err = sem.LatestVersion(sb, sa)
+				default:
+					l, err = sem.LatestTag("v"+sa, "v"+sb)
+				}
+				got, cerr := sem.Compare(sa, "v"+sb)
+				if err != nil || cerr != nil || l.String() != sb || got != -1 {
+					w.Fail(Case{A: V{Major: uint64(i / (307 * 211)), Minor: uint64(i / 211 % 307), Patch: uint64(i % 211)}, B: V{Major: uint64((i + 1) / (307 * 211)), Minor: uint64((i + 1) / 211 % 307), Patch: uint64((i + 1) % 211)}, Helpers: true},
+						"helper-compare", fmt.Sprintf("%q against its successor %q: latest = %q, %v; Compare = %d, %v (after very many other versions were parsed in this process)", sa, sb, l.String(), err, got, cerr))
+				}
+				w.Eval(false)
 			}
 		})
 	})
